@@ -50,6 +50,21 @@ pub fn run(ctx: &mut Ctx) {
             run_sdd_history(ctx, &cfg, &ops, &c2);
         });
     }
+    // fault injection on hash quality (hook H6): both SDD tables meet different nodes with one
+    // 64-bit hash all the time (`Hash`/`Eq` of BinarySDD and SddOr are consulted on unequal nodes)
+    for case in ctx.cases("weak_hash", 400, true) {
+        ctx.run_case("weak_hash", case, move |ctx, rng| {
+            let mut cfg = random_sdd_cfg(rng, 6, true);
+            cfg.compress = true;
+            cfg.nops = rng.range(5, 50);
+            let ops = gen_sdd_history(cfg.n, cfg.nops, rng);
+            let w = crate::caps::WeakHash::new(Some(crate::caps::weak_classes(rng, &ctx.profile.clone(), false)), None);
+            let all = SddChecks { function: true, wellformed: true, record_canon: false, cold_replay_every: 0 };
+            run_sdd_history(ctx, &cfg, &ops, &all);
+            ctx.count("histories_with_weak_hashes", 1);
+            ctx.count("unique_table_hash_clashes", w.clashes());
+        });
+    }
     for case in ctx.cases("rand", 1500, true) {
         let c2 = checks.clone();
         ctx.run_case("rand", case, move |ctx, rng| {
